@@ -36,7 +36,12 @@ MANIFEST = {
             "session or while a reference is left (release_frees_only_unreferenced_client_sessions), and the release of the last reference "
             "of the client session frees it once, unlinks it from the table it lives in and raises no session-deleted event, so the peer's "
             "next datagram gets a fresh session (end_call_home_frees_and_unlinks, client_free_releases_and_unlinks; "
-            "one_new_one_del_per_session: deleted + handed = new); a Lean-verified monitor ledgerOk (ledgerOk_iff) judges the REAL allocation trace recorded through wrapped "
+            "one_new_one_del_per_session: deleted + handed = new); the application may release its call-home reference at ANY time: while "
+            "something else refers to the session nothing is freed (early_release_keeps_session, release_keeps_referenced_session), and the "
+            "LAST holder of a client session — an observation, an async entry, a queued message, an application reference, released from the "
+            "receive path, an I/O pass, an API call or the teardown — frees it once, leaves no holder pointing at it and raises no "
+            "session-deleted event (last_release_frees_client_session; no_free_while_referenced and ref_eq_holders hold over these histories); "
+            "the datagram receive path is transcribed from the fixed code (temporary reference around the dispatch); a Lean-verified monitor ledgerOk (ledgerOk_iff) judges the REAL allocation trace recorded through wrapped "
             "coap_malloc_type/free_type.  M is tied to the compiled code by exact trace equality (session->ref, last_rx_tx and the "
             "notifications each peer received, partial_read / partial_pdu / state NONE of stream sessions, after EVERY event) on generated "
             "histories from 1..50 datagram peers and 0..4 stream peers (TCP endpoint; connect, whole requests, requests cut anywhere in "
@@ -64,7 +69,9 @@ REQUIRED_THEOREMS = ["peer_session_functional_injective", "one_new_one_del_per_s
                      "partial_pdu_hangs_off_live_session", "reclaim_releases_partial_pdu", "teardown_state_empty",
                      "any_reply_ends_exchange", "delayed_send_takes_no_reference", "flush_takes_reference",
                      "call_home_takes_one_reference", "end_call_home_frees_and_unlinks", "client_free_releases_and_unlinks",
-                     "release_frees_only_unreferenced_client_sessions", "client_session_survives_pass"]
+                     "release_frees_only_unreferenced_client_sessions", "client_session_survives_pass",
+                     "last_release_frees_client_session", "release_keeps_referenced_session", "early_release_keeps_session",
+                     "end_call_home_is_release"]
 RULE = ("one line = one whole history on a fresh real server context with two UDP endpoints and one TCP endpoint: requests from 1..50 peers "
         "(peers P and P+25 share the remote address/port and differ in the local port only; groups share the remote IP or the "
         "remote port) and, in about a third of the histories, 1..4 stream peers (connect + CSM, whole requests / observe / async / "
@@ -103,13 +110,14 @@ ASSUMPTIONS = ["partial: 'nothing used after release' in the compiled C is ASan'
                "SPEC DECISION D15: 'the oldest idle one when the idle-session limit is reached' is coap_endpoint_get_session's rule "
                "(datagram endpoints); accepting a stream connection (coap_new_server_session) does no idle accounting and evicts nothing",
                "the application releases only references it holds (D14) and does not use session pointers after coap_free_context (D13)",
-               "SPEC DECISION D16: call home on datagram sessions; the application releases the reference coap_session_set_type_client gave it "
-               "when it is the last one (libcoap frees a client session inside whichever release comes last)",
+               "SPEC DECISION D16: call home on datagram sessions (the call-home reference may be released at any time since round R12c)",
+               "SPEC DECISION D17: the application passes a CLIENT session's pointer to coap_session_disconnected only while it holds a reference on it",
                "compiled Lean definitions agree with the kernel's reading of them"]
 SPEC_DECISIONS = ["D9 peer_session_functional_injective: UDP, and DTLS without connection-id re-keying",
                   "D13 'valid while the application refers to it' is scoped to the life of the context; everything-released has priority at teardown",
                   "D14 the application releases only references it holds",
-                  "D16 call home: datagram sessions; the application's call-home reference is released last",
+                  "D16 call home: datagram sessions (release of the call-home reference at any time)",
+                  "D17 coap_session_disconnected on a client session only while the application holds a reference on it",
                   "D15 the idle-session limit is enforced where sessions are created from datagrams (coap_endpoint_get_session); "
                   "accepting a stream connection neither counts nor evicts"]
 RUN_KW = {"timeout": 900, "env": {"ASAN_OPTIONS": "detect_leaks=1:abort_on_error=0:exitcode=86:allocator_may_return_null=1"}}
